@@ -140,5 +140,13 @@ CLAIMS = {
           'The end-to-end statement File.comments = comments of the source is decided by execution: generated programs and the token lists of all corpus programs are rendered with line and general comments at random gaps up to every gap (including inside re-read type-parameter lists, array lengths with struct literals, interface and struct bodies, after struct fields on the same line), and the returned list must equal the (offset, text) list the layout engine wrote, in order. Partial proof.',
   'note': 'The invariant comments = comment tokens before the scanner position, through all productions, is not a theorem yet; line_end_comment is covered by correspondence only.',
  },
+ 'C12': {
+  'category': 'proof',
+  'technique': 'Lean 4 proof that the line numbers the doc-comment grouping compares are true lines (sorted table) + generated declaration sequences with every comment placement at every line against the documentation oracle of DESIGN A.6',
+  'text': 'Proved: Scanner::line_of is the true 1-based line on every sorted table, monotone, and equal for two offsets exactly when no line start lies between them - so the three comparisons of Parser::next (new group after a gap, group dropped before a distant token, comment trailing the previous token) test what they say. '
+          'The attachment rule itself is decided by execution: generated sequences of package clause, func/var/const/type declarations, grouped specs and struct fields with, before each item, one of {none, attached group, multi-line general comment, detached group, trailing comment on the previous line, detached+attached}, items starting on any line including 1-3, comments inside the previous body; '
+          'the documentation reported for each item (and the line-end comment of each struct field) must be the expected group. The two defects this exhibited on the original tree (trailing comment taken as doc; detached comment on lines 1-2 attached) were repaired by one fix: commit. Partial proof.',
+  'note': 'The sortedness of the line table is an invariant of the scanner (append-only while scanning forward, truncated by goback) compared on every scan case, not yet a theorem.',
+ },
 }
 NOT_CLAIMED = {}
